@@ -6,7 +6,19 @@ use std::fmt;
 
 /// A container of a two-pair `Ccy` cross.
 #[derive(Copy, Clone, Debug, PartialEq, Eq, Hash, Serialize, Deserialize)]
+#[serde(try_from = "(Ccy, Ccy)")]
 pub struct FXPair(pub(crate) Ccy, pub(crate) Ccy);
+
+impl std::convert::TryFrom<(Ccy, Ccy)> for FXPair {
+    type Error = String;
+
+    fn try_from(pair: (Ccy, Ccy)) -> Result<Self, Self::Error> {
+        if pair.0 == pair.1 {
+            return Err("`FXPair` must be created from two distinct currencies, not same.".to_string());
+        }
+        Ok(FXPair(pair.0, pair.1))
+    }
+}
 
 impl FXPair {
     /// Constructs a new `FXPair`, as a combination of two distinct `Ccy`s.
